@@ -60,6 +60,10 @@ def replay_chunks(inputs):
 def main(tier='quick', seed=0):
     t0 = time.time()
     records, errors, info = cxx.records_for(PROP)        # memo soundness of the two rule-cache lambdas of parsing.h
+    from props import pyx
+    precs, perrs = pyx.records_for(PROP)          # the id table of parsing.pyx: ids handed out for earlier sentences of a batch keep their meaning
+    records.extend(precs)
+    errors.extend(perrs)
     results = engine.run_jobs('props.c11', [('contract', '_chunks'), ('contract', '_type_check')])
     for r in results:
         records.extend(r.get('records', []))
